@@ -460,8 +460,9 @@ fn execute(plan: &Value, w: &World, cfg: &Cfg, slot: usize) -> Outcome {
             if r.method != "POST" {
                 push("request-wrong:method", format!("method {}", r.method));
             }
-            if Some(r.target.as_str()) != plan["path"].as_str() {
-                push("request-wrong:target", format!("target {} instead of {}", r.target, plan["path"]));
+            let want = plan::expected_target(plan["path"].as_str().unwrap_or("/graphql"));
+            if r.target != want {
+                push("request-wrong:target", format!("target {} instead of {} (URL path part {})", r.target, want, plan["path"]));
             }
             match serde_json::from_slice::<Value>(&r.body) {
                 Ok(Value::Object(m)) => {
